@@ -67,3 +67,18 @@ def include_is_splicing_contract(block, resolver, tok, names):
     check("statements_in_place", [c.symbol_name for c in code if isinstance(c, LabelNode)] == names and len(code) == len(names))
     check("no_scope_opened", len(resolver.scopes) == n0 and resolver.current_scope is scope0)
     check("macro_definitions_shared_with_the_includer", "inc_macro" in defs)
+
+
+# ------------------------------------------------------------------------------------------------ spaces (any number, every gap)
+def scan_statement_contract(s, name, text, expected_types, expected_values):
+    """The real Scanner.scan on the text of ONE statement in which every gap where the statement allows spaces (indentation, after the
+    mnemonic / size suffix, inside brackets, around operators and commas, trailing) holds ANY number of them: the token list -- types and
+    texts -- is the one of the densely written statement.  (Spaces therefore cannot change anything downstream of the scanner.)"""
+    toks = s.scan(name, text)
+    check("same_number_of_tokens", len(toks) == len(expected_types))
+    i = 0
+    for t in toks:
+        check("same_token_type", t.type == expected_types[i])
+        if expected_values[i] is not None:
+            check("same_token_text", t.value == expected_values[i])
+        i = i + 1
